@@ -564,6 +564,64 @@ def default_scope_cases():
     return out
 
 
+def gate_cases():
+    """The 64-bit range gate (`_check_bounds_on_runtime_integer_expressions`; C05's
+    `Emboss.Bounds.gate` inside the C14 model): shapes that reach each of its error kinds, alone
+    and next to errors of the other traversals of `check_constraints` (order)."""
+    out = []
+    V = lambda text, kinds, tag: out.append(Case(text, False, "gate64", kinds, tag))      # noqa: E731
+    A = lambda text, tag: out.append(Case(text, True, "gate64", tag=tag))                 # noqa: E731
+    h = "struct Foo:\n  0 [+8]  UInt  x\n  8 [+8]  Int  y\n  16 [+4]  UInt  z\n"
+    V(mod(h + "  let a = x + 1\n"), {"gate:range"}, "2^64 reachable")
+    V(mod(h + "  let a = x - 1\n"), {"gate:range"}, "-1 .. 2^64-2")
+    V(mod(h + "  let a = x * x\n"), {"gate:range"}, "2^128")
+    V(mod(h + "  let a = 18446744073709551616\n"), {"gate:const"}, "constant 2^64")
+    V(mod(h + "  let a = 0 - 9223372036854775809\n"), {"gate:const"}, "constant -2^63-1")
+    V(mod(h + "  let a = x == y\n"), {"gate:mixed"}, "uint64-only compared with int64-only")
+    V(mod(h + "  let a = (x > y) || (z == 3)\n"), {"gate:mixed"}, "mixed inside a boolean expression")
+    V(mod(h + "  let a = z + 1\n  let b = x + 1\n  let c = y - 1\n"), {"gate:range"}, "two of three")
+    V(mod(h + "  if x + 1 > 5:\n    20 [+1]  UInt  w\n"), {"gate:range"}, "in an existence condition")
+    V(mod(h + "  20 [+8]  UInt  w\n    [requires: this + 1 > 5]\n"), {"gate:range"}, "in [requires]")
+    V(mod("struct Foo:\n  0 [+1]  UInt  n\n  1 [+n]  UInt  v\n  let a = v + 1\n"),
+      {"req-not-met:UInt", "gate:unbounded"}, "dynamically sized integer: unbounded value")
+    V(mod(h + "  let int = x + 1\n"), {"reserved-field", "gate:range"}, "reserved name and range")
+    V(mod("enum Ee:\n  AA = -1\n  BB = 9223372036854775808\n" + h + "  let a = x + 1\n"),
+      {"enum-value-range", "gate:range"}, "enum range and gate")
+    V(mod(h + "  let a = x + 1\n  24 [+9]  UInt  big\nbits Bb:\n  0 [+65]  UInt  q\n"),
+      {"req-not-met:UInt", "bits-too-big", "gate:range"}, "three traversals")
+    A(mod(h + "  let a = z + 1\n  let b = z - 4294967296\n  let c = z * 4294967296\n"
+          "  let d = $max(z, 7) * 2\n"), "all fit")
+    A(mod(h + "  let a = 18446744073709551615\n  let b = -9223372036854775808\n"), "extreme constants fit")
+    A(mod("external Ext:\n  [addressable_unit_size: 8]\n"
+          "  [static_requirements: $static_size_in_bits * 18446744073709551616 > 0]\n" + h),
+      "[static_requirements] is not gated")
+    return out
+
+
+_RENAME = ["Foo", "Ee", "Ss", "Bb", "Ext", "Dyn", "Cc", "Inner"]
+
+
+def multi_violation_cases(r, pool, n):
+    """Modules breaking two or three rules at once (in different type definitions): the errors of
+    the first failing pass must all be reported, in the front end's traversal order (compared
+    with the model).  Built from the single-rule catalogue by renaming the type definitions."""
+    import re as _re
+    head = '[$default byte_order: "LittleEndian"]\n'
+    pool = [c for c in pool if c.accept is False and c.text.startswith(head)
+            and c.text.count("[$default") == 1 and not c.rule.startswith("reserved")]
+    out = []
+    for i in range(n):
+        parts, tags = [], []
+        for j, c in enumerate(r.sample(pool, r.choice([2, 2, 3]))):
+            body = c.text[len(head):]
+            for nm in _RENAME:
+                body = _re.sub(r"\b%s\b" % nm, "%s%s" % (nm, "XYZ"[j]), body)
+            parts.append(body)
+            tags.append(c.tag or c.rule)
+        out.append(Case(head + "".join(parts), False, "multi-violation", None, tag=" + ".join(tags)))
+    return out
+
+
 def finding_cases():
     """Pinned inputs of the findings of this property (findings.d/C14.json) and of the fixed
     ones that touch its code (findings.d/_fixed.json), plus their close variants."""
@@ -1214,8 +1272,10 @@ def run(tier):
         prelude_oracle(chk)
     dropped = [w for w in pinned_reserved() if w not in set(words)]
     chk.extra["reserved_words_dropped_since_pinned"] = dropped[:20]
+    single = array_element_cases() + violation_cases(wsample + dropped)
     cases = (testdata_cases() + corpus_cases() + finding_cases() + valid_boundary_cases()
-             + array_element_cases() + default_scope_cases() + violation_cases(wsample + dropped))
+             + default_scope_cases() + gate_cases() + single
+             + multi_violation_cases(r, single, 120 if tier == "quick" else 1500))
     # random valid modules and single mutations of them
     for i in range(n_rand):
         text, feats = rand_module(r)
